@@ -4,12 +4,13 @@ use conc::*;
 use std::path::PathBuf;
 
 fn cases_for(prop: &str, tier: &str) -> u32 {
+    // fixed work per tier: 16 workers x this many generated cases (plus the regression cases)
     let quick: u32 = match prop {
-        "C03" => 1200,
-        _ => 2500,
+        "C03" => 5000,
+        _ => 10_000,
     };
     if tier == "thorough" {
-        quick * 40
+        quick * 25
     } else {
         quick
     }
@@ -74,7 +75,7 @@ fn main() {
             let tier = args.get(3).cloned().unwrap_or_else(|| "quick".into());
             let seed = driver::seed_from_env();
             let workers: u64 = std::env::var("VERIF_WORKERS").ok().and_then(|s| s.parse().ok()).unwrap_or(16);
-            let base: u32 = if tier == "thorough" { 150_000 } else { 4000 };
+            let base: u32 = if tier == "thorough" { 400_000 } else { 15_000 };
             let code = driver::run_parent(
                 &lockfuzz::LockEng,
                 ParentCfg {
